@@ -29,8 +29,9 @@ pub(crate) fn draw(kind: u8, who: usize, weights: usize, n: usize) -> usize {
     }
 }
 
-/// SampledChance state machine: from any cache state, sample returns the cached outcome without
-/// drawing, or draws exactly once and caches; reset forgets.
+/// SampledChance through its API only (new, sample, sample, reset, sample, sample): the first
+/// sample of a pass draws exactly once and returns the drawn outcome, later samples of the pass
+/// return the same outcome without drawing, reset starts a new pass with a fresh draw.
 #[kani::proof]
 #[kani::unwind(6)]
 fn c10_sampled_chance_cache() {
@@ -38,29 +39,26 @@ fn c10_sampled_chance_cache() {
     unsafe {
         DRAW_BOUND = 3;
     }
-    let cached: usize = kani::any();
-    kani::assume(cached <= 3);
-    sc.cached = cached;
-    let before = unsafe { DRAWS };
+    let d0 = unsafe { DRAWS };
     let a = sc.sample();
-    let mid = unsafe { DRAWS };
+    let d1 = unsafe { DRAWS };
     let b = sc.sample();
-    let after = unsafe { DRAWS };
-    kani::cover!(cached == 0, "not drawn yet");
-    kani::cover!(cached == 3, "outcome 2 cached");
+    let b2 = sc.sample();
+    let d2 = unsafe { DRAWS };
+    kani::cover!(a == 0, "outcome 0 drawn");
+    kani::cover!(a == 2, "outcome 2 drawn");
     assert!(a < 3, "C10 chance: sampled outcome out of range");
-    if cached == 0 {
-        assert!(mid == before + 1, "C10 chance: first sample of a pass must draw exactly once");
-        assert!(a == unsafe { DRAW_RES[before] }, "C10 chance: sample does not return the drawn outcome");
-    } else {
-        assert!(mid == before, "C10 chance: cached outcome must not be redrawn within a pass");
-        assert!(a == cached - 1, "C10 chance: cached outcome not returned");
-    }
-    assert!(after == mid && b == a, "C10 chance: second sample in a pass differs or draws again");
+    assert!(d1 == d0 + 1, "C10 chance: first sample of a pass must draw exactly once");
+    assert!(a == unsafe { DRAW_RES[d0] }, "C10 chance: sample does not return the drawn outcome");
+    assert!(d2 == d1 && b == a && b2 == a, "C10 chance: later samples in a pass differ from the first or draw again");
     sc.reset();
     let c = sc.sample();
-    assert!(unsafe { DRAWS } == after + 1, "C10 chance: no fresh draw after reset");
-    assert!(c == unsafe { DRAW_RES[after] }, "C10 chance: sample after reset does not return the fresh draw");
+    let d3 = unsafe { DRAWS };
+    let e = sc.sample();
+    kani::cover!(c != a, "different outcome in the next pass");
+    assert!(d3 == d2 + 1, "C10 chance: no fresh draw after reset");
+    assert!(c == unsafe { DRAW_RES[d2] }, "C10 chance: sample after reset does not return the fresh draw");
+    assert!(e == c && unsafe { DRAWS } == d3, "C10 chance: later samples in the second pass differ or draw again");
     core::mem::forget(sc);
 }
 
